@@ -8,6 +8,10 @@ git -C /repo worktree add -q --detach $wt HEAD || exit 9
 out=/tmp/seedout.$$; mkdir -p $out
 trap "git -C /repo worktree remove --force $wt; rm -rf $out" EXIT
 git -C $wt apply -3 $patch 2>/dev/null || { echo "patch does not apply"; exit 9; }
-VERIF_REPO=$wt VERIF_OUT=$out /verif/bin/gose check $id $tier > /tmp/seedcheck.$$.out 2>&1; rc=$?
+# the engine links parts of the code under test (go/ir, pattern parser, runner): build it against the worktree
+. /verif/env.sh
+sed "s|=> /repo|=> $wt|" /verif/engine/go.mod > $out/go.mod; cp /verif/engine/go.sum $out/go.sum
+(cd /verif/engine && go build -modfile=$out/go.mod -o $out/gose ./cmd/gose) || { echo "engine build failed"; exit 9; }
+VERIF_REPO=$wt VERIF_OUT=$out $out/gose check $id $tier > /tmp/seedcheck.$$.out 2>&1; rc=$?
 grep -E "^(VIOLATION|KNOWN-FINDING|TOOL-FAILURE|UNCONFIRMED|  )" /tmp/seedcheck.$$.out | cut -c1-300 | head -12
 echo "exit=$rc"; rm -f /tmp/seedcheck.$$.out
